@@ -85,7 +85,7 @@ def _begin_page_box(fn):
     return None
 
 
-c = fragment("pdfminer.converter:PDFLayoutAnalyzer.begin_page", "page-box", _begin_page_box, props=["C04"], mode="stmts")
+c = fragment("pdfminer.converter:PDFLayoutAnalyzer.begin_page", "page-box", _begin_page_box, props=["C04", "C08", "C09"], mode="stmts")   # C08/C09: the page box bounds the neighbour search
 c.param("self", T.Opaque("analyzer")).param("page", T.Obj(None, mediabox=R4())).param("ctm", M6())
 c.req("box-ordered", lambda page: And(le(page.mediabox[0], page.mediabox[2]), le(page.mediabox[1], page.mediabox[3])))
 c.ens("origin-and-size-of-hull", lambda page, ctm, mediabox:
@@ -100,7 +100,7 @@ def _ltpage_uses_box(fn):
     return None
 
 
-c = fragment("pdfminer.converter:PDFLayoutAnalyzer.begin_page", "ltpage-gets-that-box", _ltpage_uses_box, props=["C04"])
+c = fragment("pdfminer.converter:PDFLayoutAnalyzer.begin_page", "ltpage-gets-that-box", _ltpage_uses_box, props=["C04", "C08", "C09"])
 c.param("mediabox", R4())
 c.ens("passes-the-normalised-box", lambda mediabox, result: eq(result, mediabox))
 
